@@ -18,6 +18,7 @@ mod c16;
 mod gr;
 mod c05;
 mod c01;
+mod c03;
 
 pub type Gen = fn(&mut util::Rng, &str) -> String;
 pub type Exec = fn(&[&str]) -> String;
@@ -36,6 +37,7 @@ fn table(prop: &str) -> Option<(Gen, Exec)> {
         "C05" => Some((c05::gen, c05::exec)),
         "C01" => Some((c01::gen, c01::exec)),
         "C02" => Some((c01::gen02, c01::exec)),
+        "C03" => Some((c03::gen, c03::exec)),
         "C12" => Some((c13::gen12, c13::exec)),
         _ => None,
     }
